@@ -47,7 +47,7 @@ PROP = dict(
          "an actor of another fleet); boundary indices (1, count+1), duplicates, absent jobs, depot/out-of-range positions for "
          "remove_activity_at; plus EVERY word up to length 3 (thorough: 4, and 5 for the closed route context) over a 10-letter "
          "tour alphabet and a 9-letter registry alphabet; a separate out-of-hypothesis stream calls insert_at with indices 0, "
-         "count+2, count+3",
+         "count+2, count+3 One removal in three of a multi job is keyed by ONE task wrapped as a job (rem_sub): nothing may change.",
     modelled="Tour::{new, insert_at, insert_last, remove, remove_activity_at, legs, jobs, index, index_last, contains, has_job, "
              "has_jobs, start, end, end_idx, get, Index, activities_slice, all_activities, job_activities, job_activity_count, "
              "total, job_count, deep_copy}, Activity::{has_same_job, retrieve_job, new_with_job}, Route::deep_copy, "
